@@ -100,7 +100,8 @@ Proof. eexists. eexists. split; [vm_compute; reflexivity|]. split; [vm_compute; 
 Theorem eff_step_inv st o : inv_lists st -> op_ok o -> inv_lists (eff_step st o).
 Proof.
   intros (HL & HC & HR & HE & HP) Ho. destruct o; cbn [eff_step op_ok] in *.
-  - unfold set_mosn. cbn. repeat split; assumption.
+  - (* only the record projections are reduced: a full cbn would evaluate the zero values of the graph *)
+    unfold set_mosn, inv_lists. cbn [e_listeners e_clusters e_routers e_extends e_rpaths]. repeat split; assumption.
   - cbn. repeat split; try assumption. apply aset_Forall; assumption.
   - cbn. repeat split; try assumption. apply aset_Forall; assumption.
   - cbn. repeat split; try assumption. apply adel_Forall; assumption.
@@ -112,8 +113,8 @@ Proof.
   - destruct (router_inline r Ho) as [E1 E2]. rewrite E1, E2. cbn.
     repeat split; try assumption; apply aset_Forall; try assumption; reflexivity.
   - cbn. repeat split; try assumption. apply set_extend_Forall; [intros t0; exact Ho|assumption].
-  - cbn. repeat split; assumption.
-  - cbn. repeat split; constructor.
+  - unfold inv_lists. cbn [e_listeners e_clusters e_routers e_extends e_rpaths]. repeat split; assumption.
+  - unfold inv_lists. cbn [e_listeners e_clusters e_routers e_extends e_rpaths]. repeat split; constructor.
 Qed.
 
 Lemma inv_init : inv_lists eff_init.
@@ -150,4 +151,70 @@ Theorem eff_roundtrip ops fuel : WF T t_mosn (transfer (eff_run ops eff_init)) -
 Proof.
   intros Hw Hf fuel' v' Hd.
   exact (proj1 (roundtrip_full_cfg fuel t_mosn _ Hw ltac:(vm_compute; reflexivity) Hf fuel' v' Hd)).
+Qed.
+
+(* ================================================================================================ *)
+(* SetHosts stores its argument, whole                                                              *)
+(* ================================================================================================ *)
+Lemma aget_aset_same {A} k (x : A) : forall l, aget k (aset k x l) = Some x.
+Proof.
+  induction l as [|[k' y] l IH]; cbn; [rewrite String.eqb_refl; reflexivity|].
+  destruct (String.compare k k') eqn:E; cbn.
+  - rewrite String.eqb_refl. reflexivity.
+  - rewrite String.eqb_refl. reflexivity.
+  - destruct (String.eqb k k') eqn:E2; [|exact IH].
+    apply String.eqb_eq in E2. subst k'. pose proof (String.compare_antisym k k) as Ha. rewrite E in Ha. discriminate.
+Qed.
+
+Lemma aget_aset_other {A} k m (x : A) : m <> k -> forall l, aget m (aset k x l) = aget m l.
+Proof.
+  intros Hm. assert (Em : String.eqb m k = false) by (apply String.eqb_neq; exact Hm).
+  induction l as [|[k' y] l IH]; cbn; [rewrite Em; reflexivity|].
+  destruct (String.compare k k') eqn:E; cbn.
+  - apply String.compare_eq_iff in E. subst k'. rewrite Em. reflexivity.
+  - rewrite Em. reflexivity.
+  - rewrite IH. reflexivity.
+Qed.
+
+Lemma Forall2_nth_l {X Y} (P : X -> Y -> Prop) : forall l m i a,
+  Forall2 P l m -> nth_error l i = Some a -> exists b, nth_error m i = Some b /\ P a b.
+Proof.
+  induction l as [|x l IH]; intros m i a H Ha; destruct i; cbn in Ha; try discriminate; inversion H; subst; cbn.
+  - inversion Ha; subst. eexists. split; [reflexivity|assumption].
+  - eapply IH; eauto.
+Qed.
+
+Lemma cluster_has_hosts c : WF T t_cluster c -> exists y, iget [i_c_hosts] c = Some y.
+Proof.
+  intros Hc. destruct cluster_hosts_field as (sd & fd & Hf & Hp & Hi & Ht).
+  destruct (WF_plain_inv T "v2.Cluster" sd c Hf Hp Hc) as [vs [-> [Hl Hfl]]].
+  destruct (Forall2_nth_l _ _ _ _ _ Hfl Hi) as [y [Hy _]]. exists y. cbn [iget]. rewrite Hy. reflexivity.
+Qed.
+
+(* for EVERY history of setter calls with well-formed arguments, every cluster name and EVERY host list (no premise on
+   it): if the cluster is known, afterwards it is held with exactly that host list - every host, every field, metadata
+   included, in that order - every other field of the cluster, every other cluster and every other part of the state are
+   as before; if it is not known nothing changes *)
+Theorem eff_sethosts_exact ops n hosts : Forall op_ok ops ->
+  let st := eff_run ops eff_init in
+  let st' := eff_step st (OSetHosts n hosts) in
+  match aget n (e_clusters st) with
+  | Some c => exists c', aget n (e_clusters st') = Some c' /\ iget [i_c_hosts] c' = Some hosts /\
+                         (forall j, j <> i_c_hosts -> iget [j] c' = iget [j] c)
+  | None => st' = st
+  end /\
+  (forall m, m <> n -> aget m (e_clusters st') = aget m (e_clusters st)) /\
+  e_mosn st' = e_mosn st /\ e_listeners st' = e_listeners st /\ e_routers st' = e_routers st /\
+  e_extends st' = e_extends st /\ e_cpath st' = e_cpath st /\ e_rpaths st' = e_rpaths st.
+Proof.
+  intros Ho st st'. destruct (eff_run_inv ops eff_init inv_init Ho) as (_ & HC & _).
+  fold st in HC. subst st'. cbn [eff_step].
+  destruct (aget n (e_clusters st)) as [c|] eqn:Ec.
+  - cbn. split; [|split; [intros m Hm; apply aget_aset_other; exact Hm|repeat split]].
+    exists (iset [i_c_hosts] hosts c). split; [apply aget_aset_same|].
+    destruct (aget_Forall _ n c _ HC Ec) as [k' Hc]. cbn in Hc.
+    destruct (cluster_has_hosts c Hc) as [y Hy]. split.
+    + exact (iget_iset1_same i_c_hosts hosts c y Hy).
+    + intros j Hj. exact (iget_iset1_other i_c_hosts j hosts c (fun E => Hj (eq_sym E))).
+  - split; [reflexivity|]. split; [intros; reflexivity|repeat split].
 Qed.
